@@ -410,6 +410,7 @@ func checkC19(r *core.Result) {
 	root := prog.Pkg("")
 	info := root.TypesInfo
 	summarizeEncodeNested(r, prog)
+	checkNestedBits(r, prog, root)
 	if f := core.FindFunc(root, "(*Encoder).EncodeNested"); f != nil {
 		n := errPropagated(r, prog, info, f, "N-error", func(call *ast.CallExpr) (string, bool) {
 			name := ""
